@@ -24,9 +24,9 @@ const (
 
 func init() {
 	register(&Property{
-		ID:  "C15",
-		Run: runC15,
-		Explain: "Static structural necessary conditions of the OTLP hop, with the status tables decided exhaustively: (R1) tables, extracted from the switches in the source and evaluated for all 17 gRPC codes / the HTTP statuses involved: the gRPC exporter's retry classification equals the OTLP specification's table (retryable: CANCELLED, DEADLINE_EXCEEDED, ABORTED, OUT_OF_RANGE, UNAVAILABLE, DATA_LOSS; RESOURCE_EXHAUSTED only with RetryInfo); the HTTP exporter's retryable set is {429,502,503,504}; the receiver's gRPC-code→HTTP-status map sends every retryable code to a retryable status and every other code to a non-retryable one (RESOURCE_EXHAUSTED→429); the HTTP→gRPC map keeps the classification; the receiver's error→status function consults permanence only when no gRPC status is attached, mapping permanent→non-retryable and anything else→retryable; (R2) classification wiring in both exporters (permanent / throttle with the server's delay / raw error), Retry-After consulted and written only for 429/503; (R3) per-signal gates of the receiver: the consumer is reached only after method/content-type/body/unmarshal succeeded, each failing side answers and returns; Export acknowledges without calling the consumer when the signal's own item count is 0 and converts a consumer error with the error→status function; (R4) authentication gates: the next handler is reached only on the err==nil side of Authenticate, the failing side answers 401/Unauthenticated; (R5) signal-family consistency across the per-signal receiver/exporter siblings.",
+		ID:         "C15",
+		Run:        runC15,
+		Explain:    "Static structural necessary conditions of the OTLP hop, with the status tables decided exhaustively: (R1) tables, extracted from the switches in the source and evaluated for all 17 gRPC codes / the HTTP statuses involved: the gRPC exporter's retry classification equals the OTLP specification's table (retryable: CANCELLED, DEADLINE_EXCEEDED, ABORTED, OUT_OF_RANGE, UNAVAILABLE, DATA_LOSS; RESOURCE_EXHAUSTED only with RetryInfo); the HTTP exporter's retryable set is {429,502,503,504}; the receiver's gRPC-code→HTTP-status map sends every retryable code to a retryable status and every other code to a non-retryable one (RESOURCE_EXHAUSTED→429); the HTTP→gRPC map keeps the classification; the receiver's error→status function consults permanence only when no gRPC status is attached, mapping permanent→non-retryable and anything else→retryable; (R2) classification wiring in both exporters (permanent / throttle with the server's delay / raw error), Retry-After consulted and written only for 429/503; (R3) per-signal gates of the receiver: the consumer is reached only after method/content-type/body/unmarshal succeeded, each failing side answers and returns; Export acknowledges without calling the consumer when the signal's own item count is 0 and converts a consumer error with the error→status function; (R4) authentication gates: the next handler is reached only on the err==nil side of Authenticate, the failing side answers 401/Unauthenticated; (R5) signal-family consistency across the per-signal receiver/exporter siblings.",
 		NotDecided: "Payload equality across the hop and across compressions (codec behaviour, C08/C16); gRPC/HTTP library behaviour.",
 		Assumes:    []string{"OTLP specification failure tables (frozen in the checker)", "google.golang.org/grpc/codes numbering"},
 		Technique:  "static analysis: switch-table extraction from SSA with exhaustive evaluation against the specification's tables, dominance gating, dependence slices, signal-family consistency",
@@ -468,7 +468,9 @@ func runC15Wiring(c *Ctx, names map[int64]string) {
 				continue
 			}
 			nExp++
-			cons := calls(fn, func(ci ssa.CallInstruction) bool { return ci.Common().IsInvoke() && strings.HasPrefix(ci.Common().Method.Name(), "Consume") })
+			cons := calls(fn, func(ci ssa.CallInstruction) bool {
+				return ci.Common().IsInvoke() && strings.HasPrefix(ci.Common().Method.Name(), "Consume")
+			})
 			if len(cons) != 1 {
 				c.Bad("["+sig+"] Export consumes once", p.Pos(fn.Pos()), "consumer call not found")
 				continue
@@ -605,7 +607,9 @@ func runC15Wiring(c *Ctx, names map[int64]string) {
 			continue
 		}
 		for _, fn := range p.AllSrcFuncs(pk) {
-			auth := calls(fn, func(ci ssa.CallInstruction) bool { return ci.Common().IsInvoke() && ci.Common().Method.Name() == "Authenticate" })
+			auth := calls(fn, func(ci ssa.CallInstruction) bool {
+				return ci.Common().IsInvoke() && ci.Common().Method.Name() == "Authenticate"
+			})
 			if len(auth) != 1 {
 				continue
 			}
